@@ -18,11 +18,13 @@ import (
 	"github.com/cloudflare/circl/kem/mlkem/mlkem768"
 	"github.com/cloudflare/circl/kem/xwing"
 	"github.com/cloudflare/circl/oprf"
+	"github.com/cloudflare/circl/sign"
 	"github.com/cloudflare/circl/sign/bls"
 	"github.com/cloudflare/circl/sign/dilithium/mode3"
 	"github.com/cloudflare/circl/sign/eddilithium2"
 	"github.com/cloudflare/circl/sign/eddilithium3"
 	"github.com/cloudflare/circl/sign/mldsa/mldsa65"
+	signschemes "github.com/cloudflare/circl/sign/schemes"
 	tssrsa "github.com/cloudflare/circl/tss/rsa"
 	"github.com/cloudflare/circl/zz_verif/vlib"
 	"pgregory.net/rapid"
@@ -546,4 +548,101 @@ func TestC11SeqReuse(t *testing.T) {
 			})
 		})
 	}
+}
+
+// TestC11SeqKeyPair: a public key object handed out by key generation or by
+// sk.Public() may be reused by the caller as a decoding target; doing so must
+// not change what the private key does afterwards (signatures, Public(),
+// serialisation) — a returned object must not share mutable storage with the
+// private key it came from.
+func TestC11SeqKeyPair(t *testing.T) {
+	defer vlib.Done()
+	type unm interface{ UnmarshalBinary([]byte) error }
+	for _, s := range signschemes.All() {
+		s := s
+		sub := "keypair/sign/" + s.Name()
+		vlib.Check(t, vlib.N(12, 80), func(t *rapid.T) {
+			seedA := vlib.EdgeBytes(t, s.SeedSize(), "a")
+			seedB := vlib.EdgeBytes(t, s.SeedSize(), "b")
+			if string(seedA) == string(seedB) {
+				seedB[0] ^= 1
+			}
+			msg := vlib.Bytes(t, 0, 40, "m")
+			pkA, skA := s.DeriveKey(seedA)
+			pkB, _ := s.DeriveKey(seedB)
+			pkBb := mb(pkB.MarshalBinary())
+			observe := func() string {
+				return fmt.Sprintf("sig=%x sk=%x pub=%x", s.Sign(skA, msg, nil), mb(skA.MarshalBinary()), mb(skA.Public().(sign.PublicKey).MarshalBinary()))
+			}
+			var want string
+			useBefore := rapid.Bool().Draw(t, "useBefore")
+			if useBefore {
+				want = observe()
+			}
+			target := "pk-from-DeriveKey"
+			var obj any = pkA
+			if rapid.Bool().Draw(t, "fromPublic") {
+				obj = skA.Public()
+				target = "sk.Public()"
+			}
+			u, ok := obj.(unm)
+			vlib.Eval(sub)
+			if !ok {
+				vlib.Class(sub, "public-key-type-has-no-UnmarshalBinary")
+				return
+			}
+			if err := u.UnmarshalBinary(append([]byte{}, pkBb...)); err != nil {
+				t.Fatalf("harness: valid public key refused: %v", err)
+			}
+			if !useBefore {
+				// the expectation comes from an independent key pair derived from the same seed
+				_, skA2 := s.DeriveKey(seedA)
+				want = fmt.Sprintf("sig=%x sk=%x pub=%x", s.Sign(skA2, msg, nil), mb(skA2.MarshalBinary()), mb(skA2.Public().(sign.PublicKey).MarshalBinary()))
+			}
+			if got := observe(); got != want {
+				vlib.Report(t, "C11/keypair/sign/"+s.Name()+"/private-key-changed-by-decoding-into-its-public-key",
+					fmt.Sprintf("after decoding another public key into %s the private key observes\n %.200s\nexpected\n %.200s", target, got, want))
+				return
+			}
+			vlib.NonTrivial(sub, "decode-into-"+target, seedA, seedB, msg)
+			vlib.Sample(sub, target, fmt.Sprintf("%s: decode pk(seed %x) into %s of seed %x, then sign", s.Name(), seedB[:4], target, seedA[:4]))
+		})
+	}
+	// BLS and OPRF hand out a pointer to their cached public key
+	sub := "keypair/bls+oprf"
+	vlib.Check(t, vlib.N(10, 60), func(t *rapid.T) {
+		ikmA, ikmB := vlib.Bytes(t, 32, 32, "a"), vlib.Bytes(t, 32, 32, "b")
+		if string(ikmA) == string(ikmB) {
+			ikmB[0] ^= 1
+		}
+		vlib.Eval(sub)
+		{
+			skA, _ := bls.KeyGen[bls.G1](ikmA, nil, nil)
+			skB, _ := bls.KeyGen[bls.G1](ikmB, nil, nil)
+			want := fmt.Sprintf("%x", mb(skA.PublicKey().MarshalBinary()))
+			pk := skA.PublicKey()
+			if err := pk.UnmarshalBinary(mb(skB.PublicKey().MarshalBinary())); err != nil {
+				t.Fatalf("harness: %v", err)
+			}
+			if got := fmt.Sprintf("%x", mb(skA.PublicKey().MarshalBinary())); got != want {
+				vlib.Report(t, "C11/keypair/bls/private-key-changed-by-decoding-into-its-public-key", fmt.Sprintf("sk.PublicKey() now returns %s, before %s", got, want))
+				return
+			}
+		}
+		{
+			su := oprf.SuiteP256
+			skA, _ := oprf.DeriveKey(su, oprf.VerifiableMode, ikmA, nil)
+			skB, _ := oprf.DeriveKey(su, oprf.VerifiableMode, ikmB, nil)
+			want := fmt.Sprintf("%x", mb(skA.Public().MarshalBinary()))
+			pk := skA.Public()
+			if err := pk.UnmarshalBinary(su, mb(skB.Public().MarshalBinary())); err != nil {
+				t.Fatalf("harness: %v", err)
+			}
+			if got := fmt.Sprintf("%x", mb(skA.Public().MarshalBinary())); got != want {
+				vlib.Report(t, "C11/keypair/oprf/private-key-changed-by-decoding-into-its-public-key", fmt.Sprintf("sk.Public() now returns %s, before %s", got, want))
+				return
+			}
+		}
+		vlib.NonTrivial(sub, "decode-into-sk.Public()", ikmA, ikmB)
+	})
 }
